@@ -8,7 +8,10 @@ from common import Model, tok, outcome
 ID = "C05"
 MODULE = "DaliVerif.Props.C05"
 EXES = ["m_frame"]
-GEN = False
+GEN = True        # the source translator (gen/src_frame.py) feeds the tie by translation
+TIE_MODULES = ["DaliVerif.Tie.Frame"]
+TIE_THEOREMS = ["Tie.Frame.%s_tie" % n for n in
+                ("init", "getSlice", "getBit", "setSlice", "setBit", "containsTrue", "containsFalse", "add", "eq", "ne")]
 THEOREMS = ["new_spec", "new_inv", "apply_refines", "history_refines", "value_in_range",
             "eq_iff", "ne_eq_not_eq", "pack_spec", "packLen_spec", "packLen_roundtrip",
             "pack_reconstructs"]
@@ -335,6 +338,13 @@ def correspond(ctx, corr):
             line = line_of(name, bits, data, ops, F)
             run.add(line, ans, True)
             hist.append(line)
+            # a frame produced by `+` is a frame like any other: carry on the history ON THE SUM half of the time
+            # (every later line states the live frame's width and contents, so the model follows by itself)
+            if name == "add" and ans.startswith("ok") and r._bits <= 300 and ctx.rng.random() < 0.5:
+                f = r
+                w = f._bits
+                hist.append("(history continues on the sum)")
+                corr.bump("hist:continued-on-sum")
             # the views must follow every mutation (read them at random points so that any caching is exercised)
             if ctx.rng.random() < 0.6 and f._bits == w and 0 <= f._data < (1 << w):
                 pk = f.pack
